@@ -49,6 +49,13 @@ func init() {
 		ok := c.w.applyUF(c.s, "b64ok", []Value{opaqueStr(e)}, "Bool", "bool")
 		c.s.addPC(tEq(d, b.term()))
 		c.s.addPC(ok)
+		if enc := encOf(c); enc == base64.URLEncoding || enc == base64.StdEncoding {
+			c.s.addPC("(= (mod (str.len " + e + ") 4) 0)") // padded encodings
+		}
+		if c.s.B64 == nil {
+			c.s.B64 = map[string]StrV{}
+		}
+		c.s.B64[e] = b
 		c.set(opaqueStr(e))
 		return nil, false
 	}
@@ -61,6 +68,11 @@ func init() {
 			} else {
 				c.setTuple(c.w.bytesOfString(c.s, litStr(string(b))), IfaceV{})
 			}
+			return nil, false
+		}
+		if orig, hit := c.s.B64[sv.term()]; hit && sv.K == SOpaque {
+			// decoding what was encoded on this path gives back the very same bytes
+			c.setTuple(c.w.bytesOfString(c.s, orig), IfaceV{})
 			return nil, false
 		}
 		ok := c.w.applyUF(c.s, "b64ok", []Value{sv}, "Bool", "bool")
